@@ -228,7 +228,7 @@ def classify(msg):
 # ------------------------------------------------------------------------------------------
 
 HEADER = """From Coq Require Import List NArith Bool.
-Require Import Olric.Model.PubSub Olric.Model.PubSubRun.
+Require Import Olric.Model.Codec Olric.Model.PubSub Olric.Model.PubSubRun.
 Import ListNotations.
 """
 
